@@ -34,7 +34,7 @@ F(ast) == [c |-> "formula", ast |-> ast]
 K(v)   == [c |-> "const", v |-> v]
 
 \* a case: cells (function), names (function), probe <<sheet, col, row>> or a name, how the probe is addressed
-Mk(kind, cells, names, probe) == [kind |-> kind, cells |-> cells, names |-> names, probe |-> probe, pname |-> ""]
+Mk(kind, cells, names, probe) == [kind |-> kind, cells |-> cells, names |-> names, probe |-> probe, pname |-> "", pre |-> <<>>]
 
 WbOf(c) == [cells |-> c.cells, names |-> c.names]
 NoNames == <<>>
@@ -50,10 +50,11 @@ WithProbe(cells, p, ast) == [k \in DOMAIN cells \cup {Probe(p)} |-> IF k = Probe
 Restrict(cells, absent) == [k \in DOMAIN cells \ absent |-> cells[k]]
 SubBlock == {<<"S1", 1, 1>>, <<"S1", 2, 1>>, <<"S1", 1, 2>>, <<"S1", 2, 2>>}
 
-Strip(n, horiz, mid) == \* weights 1 and 2 at the two ends (and 4 in the middle) of a strip of length n on S1
-    LET at(i) == IF horiz THEN <<"S1", i, 1>> ELSE <<"S1", 1, i>>
+StripOn(sh, n, horiz, mid) == \* weights 1 and 2 at the two ends (and 4 in the middle) of a strip of length n on sheet sh
+    LET at(i) == IF horiz THEN <<sh, i, 1>> ELSE <<sh, 1, i>>
         ks == {at(1), at(n)} \cup (IF mid THEN {at(n \div 2)} ELSE {})
     IN [k \in ks |-> K(Whole(IF k = at(1) THEN 1 ELSE IF k = at(n) THEN 2 ELSE 4))]
+Strip(n, horiz, mid) == StripOn("S1", n, horiz, mid)
 
 ChainCells(perm) == \* perm: sequence of the three sheet names
     LET a == perm[1]  b == perm[2]  c == perm[3]
@@ -101,6 +102,22 @@ InitCase ==
           LET cells == ( <<"S1", 1, 1>> :> K(Whole(1)) @@ <<"S1", 2, n>> :> K(Whole(2)) @@ <<"S1", 2, m>> :> K(Whole(4)) )
               pk == <<"S1", 4, 1>>
           IN case = Mk("strip2", [k \in DOMAIN cells \cup {pk} |-> IF k = pk THEN F(CallN("SUM", <<Rng("", 1, 1, 2, n)>>)) ELSE cells[k]], NoNames, pk)
+  \/ /\ "strip" \in Families        \* long blank runs on sheets whose names need quoting, read from the same and from another sheet
+     /\ \E sh \in {"S 2", "O'x"}, n \in {101, 150, 250}, horiz \in BOOLEAN, f \in {"SUM", "COUNTA"}, q \in BOOLEAN :
+          LET rg == IF horiz THEN Rng(IF q THEN sh ELSE "", 1, 1, n, 1) ELSE Rng(IF q THEN sh ELSE "", 1, 1, 1, n)
+              pk == <<IF q THEN "S1" ELSE sh, 2, 400>>
+              cells == StripOn(sh, n, horiz, TRUE)
+          IN case = Mk("strip-quoted", [k \in DOMAIN cells \cup {pk} |-> IF k = pk THEN F(CallN(f, <<rg>>)) ELSE cells[k]], NoNames, pk)
+  \/ /\ "twin" \in Families          \* the SAME formula text on every sheet, all evaluated by one evaluator, in every order
+     /\ \E perm \in {<<1, 2, 3>>, <<1, 3, 2>>, <<2, 1, 3>>, <<2, 3, 1>>, <<3, 1, 2>>, <<3, 2, 1>>}, v \in 1..5 :
+          LET ast == CASE v = 1 -> RelRef(1, 1)
+                       [] v = 2 -> Bin("*", Ref("", 1, 2, TRUE, TRUE), NumLit(<<50>>))
+                       [] v = 3 -> CallN("SUM", <<Rng("", 1, 1, 2, 2)>>)
+                       [] v = 4 -> Bin("+", CallN("COUNTA", <<Rng("", 1, 1, 3, 3)>>), RelRef(3, 3))
+                       [] v = 5 -> Bin("+", NameRef("myname"), RelRef(2, 2))
+              cells == [k \in DOMAIN DenseCells \cup {Probe(1), Probe(2), Probe(3)} |-> IF k \in DOMAIN DenseCells THEN DenseCells[k] ELSE F(ast)]
+              nm == IF v = 5 THEN ("myname" :> Ref("S 2", 3, 1, TRUE, TRUE)) ELSE NoNames
+          IN case = [Mk("twin", cells, nm, Probe(perm[3])) EXCEPT !.pre = <<Probe(perm[1]), Probe(perm[2])>>]
   \/ /\ "wide" \in Families
      /\ \E i \in 1..Len(WideCols), r \in {1, 10}, kind \in 1..3 :
           LET c == WideCols[i]
